@@ -13,11 +13,11 @@ TITLE = 'HTTP API = library'
 LEVEL = 'exploration'
 TECHNIQUE = ('runtime monitoring: Flask test client drives the tree\'s api/app.py; trace monitors on the names vincinv, vincdir, '
              'hp2dec, dec2hp inside api.app record which query field reached which argument; responses compared exactly with '
-             'direct library calls and, for the HP conversions, with the exact angle oracle')
+             'direct library calls and, for the HP conversions, with the exact angle oracle; the trace names the mechanism of a wrong answer and is not a verdict of its own')
 RULE = ('random queries over the C04/C05 domains with every combination of from_angle_type/to_angle_type in {dd, dms, absent}; '
         'HP-valid inputs built by the oracle; negative (western/southern) values; values within a fraction of an arc-second of zero (written in exponent form); 8 % of the requests preceded by a malformed request (invalid HP numeral, missing field, unknown angle type) that is not judged; distinct values in every field so a swapped '
         'wiring is visible.  Judged: status 200; JSON equal (as floats, exactly) to the library call on the same arguments with '
-        'the stated HP conversions; arguments observed at the library boundary equal the query fields in order; HP outputs denote '
+        'the stated HP conversions; arguments observed at the library boundary and converter call counts name the mechanism of a wrong answer (argument-wiring, angle-type-dispatch); HP outputs denote '
         'the decimal results (1e-8"); index route lists /, /vincinv, /vincdir.  distinct = endpoint x from x to x sign pattern x '
         'distance decade')
 ASSUMPTIONS = ['Flask/Werkzeug test client is faithful to a real HTTP GET', 'the library functions themselves are judged by C04/C05/C08']
@@ -165,34 +165,51 @@ def judge_request(ns, ctx, tr, client, endpoint, q):
     if set(got) != set(exp):
         ctx.violation(endpoint + ':keys', case, {'got': sorted(got), 'want': sorted(exp)})
         return
-    for k in exp:
-        if not (isinstance(got[k], (int, float)) and float(got[k]) == float(exp[k])):
-            ctx.violation('%s:value-differs-from-library' % endpoint, case, {'field': k, 'got': got[k], 'library': exp[k],
-                                                                             'from': ft, 'to': tt})
-            break
-    # HP outputs denote the decimal results / dd outputs are the decimal results unchanged
-    for k, v in plain.items():
-        if tt == 'dms':
-            ok, val, _ = ax.hp_read(got[k])
-            if not ok or abs(val - Fraction(float(v))) > ax.TOL_DEG:
-                ctx.violation('%s:hp-output-does-not-denote-result' % endpoint, case, {'field': k, 'got': got[k], 'decimal': v})
-                break
-    # trace: which query field reached which argument of the library function
+    # what the trace monitors saw: which query field reached which argument of the library function, and how often the
+    # notation converters ran.  The trace is evidence and names the mechanism when an answer is wrong; it is not a verdict
+    # of its own (an API that answers a repeated query from a cache, or converts notation another way, still returns
+    # exactly what the library computes).
     lc = [c for c in tr_calls if c[0] == endpoint]
     ctx.count('trace_args_checked')
-    if len(lc) != 1:
-        ctx.violation(endpoint + ':library-function-calls', case, {'calls': len(lc)})
-    else:
-        seen = [float(x) for x in lc[0][1][:len(args)]]
+    wiring = None
+    if len(lc) == 1:
+        ctx.count('trace_one_library_call')
+        try:
+            seen = [float(x) for x in lc[0][1][:len(args)]]
+        except Exception:
+            seen = None
         if seen != [float(x) for x in args] or len(lc[0][1]) != len(args):
-            ctx.violation(endpoint + ':argument-wiring', case, {'seen_at_library_boundary': seen, 'expected': [float(x) for x in args]})
+            wiring = {'seen_at_library_boundary': seen, 'expected': [float(x) for x in args]}
+    else:
+        ctx.count('trace_library_calls_%d' % len(lc))
     nconv_in = len([c for c in tr_calls if c[0] == 'hp2dec'])
     nconv_out = len([c for c in tr_calls if c[0] == 'dec2hp'])
     want_in = len(fields) if ft == 'dms' else 0
     want_out = len(plain) if tt == 'dms' else 0
-    if (nconv_in, nconv_out) != (want_in, want_out):
-        ctx.violation(endpoint + ':angle-type-dispatch', case, {'hp2dec_calls': nconv_in, 'dec2hp_calls': nconv_out,
-                                                                'expected': [want_in, want_out]})
+    dispatch = None
+    if len(lc) == 1 and (nconv_in, nconv_out) != (want_in, want_out):
+        dispatch = {'hp2dec_calls': nconv_in, 'dec2hp_calls': nconv_out, 'expected': [want_in, want_out]}
+    wrong = False
+    for k in exp:
+        if not (isinstance(got[k], (int, float)) and float(got[k]) == float(exp[k])):
+            wrong = True
+            mech, extra = 'value-differs-from-library', {}
+            if wiring is not None:
+                mech, extra = 'argument-wiring', wiring
+            elif dispatch is not None:
+                mech, extra = 'angle-type-dispatch', dispatch
+            ctx.violation('%s:%s' % (endpoint, mech), case, dict({'field': k, 'got': got[k], 'library': exp[k], 'from': ft, 'to': tt}, **extra))
+            break
+    # HP outputs denote the decimal results / dd outputs are the decimal results unchanged
+    for k, v in plain.items():
+        if tt == 'dms' and not wrong:
+            ok, val, _ = ax.hp_read(got[k])
+            if not ok or abs(val - Fraction(float(v))) > ax.TOL_DEG:
+                ctx.violation('%s:hp-output-does-not-denote-result' % endpoint, case, {'field': k, 'got': got[k], 'decimal': v})
+                wrong = True
+                break
+    if not wrong and (wiring is not None or dispatch is not None):
+        ctx.count('trace_differs_but_answer_equals_library')
 
 
 BAD_QUERIES = [
